@@ -40,6 +40,10 @@ vars == <<target, field, last, nops>>
 \* had / hadf: captured target and field before the call; drv: the call reached the driver
 NoOp == [op |-> "", kinds |-> <<>>, iters |-> 0, res |-> "", idx |-> 0, sent |-> "", had |-> "none",
          interval |-> 0, cycle |-> 0, pauses |-> <<>>, hadf |-> FALSE, drv |-> FALSE]
+\* documented size limits of target attributes: an active-mode target's atr_req has 16..64 bytes, a Type A
+\* target's sel_req (the UID to select) 4, 7 or 10 bytes; anything else makes the target "invalid"
+AtrReqOk(n) == n >= 16 /\ n <= 64
+SelReqOk(n) == n \in {4, 7, 10}
 BadArgs(ks) == \E i \in DOMAIN ks : ks[i] = "badtype"
 Max0(x, y) == IF x > y THEN x - y ELSE 0           \* max(0, x - y) on naturals
 
